@@ -488,6 +488,7 @@ def derived_workspaces(g, rng, n_base, n_prefix, n_edit, n_nonascii, multi=True)
             out.append(("prefix", others + [[root, t]], root))
         for t in symgen.token_edits(rt, rng, n_edit):
             out.append(("token-edit", others + [[root, t]], root))
+        out.append(("trivia", others + [[root, symgen.inject_trivia(rt, rng, 8)]], root))
         for _ in range(n_nonascii):
             fs = [[p, symgen.inject_nonascii(t, rng)] if (p == root or rng.random() < 0.5) else [p, t] for p, t in files]
             out.append(("non-ascii", fs, root))
